@@ -163,3 +163,60 @@ def is_pure_call_free(expr, var):
         elif not isinstance(n, PURE + (ast.Not, ast.And, ast.Or)):
             return False
     return True
+
+
+def expand(fn, expr, at, depth=4):
+    """``expr`` with every single-assignment local temporary replaced by the expression it was assigned -- calls
+    included (na = self.is_na(); array = np.where(na, None, self); array.tolist()  ->  np.where(self.is_na(), None,
+    self).tolist()).  A temporary is substituted only when it has exactly one reaching definition and none of the names
+    that definition reads has been rebound between the definition and the use.  Used to match shapes, never to judge
+    effects."""
+    import copy
+
+    def same_bindings(value, def_at, use_at):
+        for n in ast.walk(value):
+            if isinstance(n, ast.Name) and isinstance(n.ctx, ast.Load) and not comprehension_binding(fn, n.id, n):
+                a = {id(d.node) for d in defs_reaching(fn, n.id, def_at)}
+                b = {id(d.node) for d in defs_reaching(fn, n.id, use_at)}
+                if a != b:
+                    return False
+        return True
+
+    def go(e, where, d):
+        if d == 0:
+            return copy.deepcopy(e)
+
+        class S(ast.NodeTransformer):
+            def visit_Name(self, node):
+                if not isinstance(node.ctx, ast.Load) or comprehension_binding(fn, node.id, node):
+                    return node
+                ds = defs_reaching(fn, node.id, where)
+                if len(ds) == 1 and ds[0].kind == "assign" and ds[0].value is not None and isinstance(ds[0].target, ast.Name) \
+                        and ds[0].node is not None and not any(isinstance(x, (ast.Yield, ast.YieldFrom, ast.Await, ast.NamedExpr))
+                                                              for x in ast.walk(ds[0].value)) \
+                        and same_bindings(ds[0].value, ds[0].node.ast, where):
+                    return go(ds[0].value, ds[0].node.ast, d - 1)
+                return node
+
+            def visit_Lambda(self, node):
+                return node
+        return S().visit(copy.deepcopy(e))
+    # names must be looked up at their original positions: work on the original nodes, copy on substitution
+    mapping = {}
+    for n in ast.walk(expr):
+        if isinstance(n, ast.Name) and isinstance(n.ctx, ast.Load) and not comprehension_binding(fn, n.id, n):
+            ds = defs_reaching(fn, n.id, at)
+            if len(ds) == 1 and ds[0].kind == "assign" and ds[0].value is not None and isinstance(ds[0].target, ast.Name) \
+                    and ds[0].node is not None and not any(isinstance(x, (ast.Yield, ast.YieldFrom, ast.Await, ast.NamedExpr))
+                                                          for x in ast.walk(ds[0].value)) \
+                    and same_bindings(ds[0].value, ds[0].node.ast, at):
+                mapping[id(n)] = expand(fn, ds[0].value, ds[0].node.ast, depth - 1) if depth > 1 else copy.deepcopy(ds[0].value)
+    if not mapping:
+        return expr
+    new = copy_with_ids(expr, mapping)
+
+    class R(ast.NodeTransformer):
+        def visit_Name(self, node):
+            r = mapping.get(id(node))
+            return copy.deepcopy(r) if r is not None else node
+    return R().visit(new)
